@@ -111,6 +111,7 @@ def run(run):
                 if rshape != sshape:
                     run.violations.append((f"{tag}/real-shape", _w(run, tag, "real build wiring differs from the symbolic path")))
     run.extra["paths_explored"] = npaths
+    boundary_enumeration(run)
     run.add_functions(["Composer::" + a[0] for a, _, _ in COMPONENTS] +
                       ["reject_degenerate_z", "JubJubExtended::is_on_curve / is_torsion_free (dependency, executed "
                        "symbolically)", "JubJubAffine::from(JubJubExtended)"])
@@ -122,6 +123,61 @@ def run(run):
                        "the witness, which cannot be executed on a symbolic value; for these the layouts extracted at "
                        "several witness values are compared in C09-C11/C14 (auxiliary)")
     run.assumptions.append(EDCOMPLETE_NOTE)
+
+
+RJ = 0x0e7db4ea6533afa906673b0101343b00a6682093ccc81082d0970e5ed6f72cb7
+
+
+def boundary_enumeration(run):
+    """Auxiliary (enumeration, not a solver verdict): the components whose witness generation
+    decomposes a witness into bits are executed by the real composer at the boundary values
+    named in the property; every run must end in the same shape or in Err, never in a panic."""
+    import json
+    import os
+    import subprocess
+    vals = {"0": 0, "1": 1, "-1": R - 1, "2^k": 1 << 8, "2^k-1": (1 << 8) - 1, "2^252-1": (1 << 252) - 1,
+            "2^252": 1 << 252, "r_J": RJ, "r_J-1": RJ - 1, "r_J+1": RJ + 1, "2^254": 1 << 254, "r-2": R - 2}
+    gadgets = [["range_bits", "8"], ["range_bits", "253"], ["logic", "and", "4"], ["logic", "xor", "127"],
+               ["truncate", "8"], ["truncate", "254"], ["decomposition", "8"], ["decomposition", "252"],
+               ["mul_point"], ["mul_generator"]]
+    count = 0
+    for g in gadgets:
+        shapes = {}
+        for label, v in vals.items():
+            names = {"range_bits": ["x"], "truncate": ["x"], "decomposition": ["x"], "logic": ["a", "b"],
+                     "mul_point": ["s"], "mul_generator": ["s"]}[g[0]]
+            env = {n: "%064x" % v for n in names}
+            os.makedirs(fw.OUT, exist_ok=True)
+            pth = os.path.join(fw.OUT, f"env_c07_{os.getpid()}.json")
+            json.dump(env, open(pth, "w"))
+            e = dict(os.environ, VERIF_SEED=str(run.seed), VERIF_ENV=pth)
+            pr = subprocess.run([fw.REAL_BIN, "extract"] + g, capture_output=True, text=True, env=e)
+            os.unlink(pth)
+            count += 1
+            if pr.returncode != 0:
+                d = os.path.join(fw.OUT, "cex")
+                os.makedirs(d, exist_ok=True)
+                f = os.path.join(d, f"C07_boundary_{'_'.join(g)}_{label.replace('^', '')}.json")
+                json.dump({"property": "C07", "what": "component panics / aborts at a boundary value",
+                           "gadget": g, "value": hex(v), "stderr": pr.stderr[-800:],
+                           "replay": f"VERIF_ENV=<{env}> realdrv extract {' '.join(g)}"}, open(f, "w"), indent=1)
+                run.violations.append((f"boundary/{'/'.join(g)}/{label}", f))
+                continue
+            lay = json.loads(pr.stdout)["outputs"]["layout"]
+            if lay["returned"].get("error"):
+                continue
+            shape = json.dumps([lay["gates"], [x[0] for x in lay["pis"]]])
+            shapes.setdefault(shape, []).append(label)
+        if len(shapes) > 1:
+            d = os.path.join(fw.OUT, "cex")
+            os.makedirs(d, exist_ok=True)
+            f = os.path.join(d, f"C07_boundary_shape_{'_'.join(g)}.json")
+            json.dump({"property": "C07", "what": "emitted gates depend on the witness value", "gadget": g,
+                       "classes": list(shapes.values())}, open(f, "w"), indent=1)
+            run.violations.append((f"boundary/{'/'.join(g)}/shape", f))
+    run.extra["boundary_runs"] = count
+    run.notes.append("bit-decomposing components: real composer executed at the 12 boundary values of the "
+                     "property for 10 component instances (enumeration, auxiliary).")
 
 
 def reach_obligation(run, name, ctx, p):
